@@ -19,7 +19,7 @@ import time
 HERE = os.path.dirname(os.path.abspath(__file__))
 VERIF = os.path.dirname(HERE)
 REPO = os.environ.get("OHSA_REPO", "/repo")
-CACHE = os.path.join(VERIF, ".cache")
+CACHE = os.environ.get("OHSA_CACHE", os.path.join(VERIF, ".cache"))
 sys.path.insert(0, HERE)
 
 
@@ -115,7 +115,11 @@ def main():
     import report
     if args.replay:
         return report.replay(args.prop, args.replay, res)
-    return report.decide(args.prop, args.tier, res, t0)
+    extra = None
+    if args.tier == "thorough" and not os.environ.get("OHSA_NO_SELFTEST"):
+        import selftest
+        extra = selftest.run(args.prop)
+    return report.decide(args.prop, args.tier, res, t0, extra)
 
 
 if __name__ == "__main__":
